@@ -20,6 +20,8 @@ var docs = []string{
 	`{"store":{"book":[{"category":"reference","author":"Nigel Rees","price":8.95},{"category":"fiction","author":"Evelyn Waugh","price":12.99}],"bicycle":{"color":"red","price":19.95}},"n":[1,2.5,-0,1e3],"s":"aé\n","t":true,"z":null}`,
 	`[[1,2,3],[4,5],[6],{"a":"x","b":[true,false,null]}]`,
 	`{"a":{"a":{"a":[1,"two",3.5]}},"b":"😀"}`,
+	// numbers outside float64: the one read that fails — it must fail for every reader, first or not
+	`{"big":1e999,"ok":1,"list":[1,-1e400,2]}`,
 }
 
 func walk(n *ajson.Node, f func(*ajson.Node)) {
@@ -125,9 +127,18 @@ var ops = []op{
 		}
 		switch t := v.(type) {
 		case []*ajson.Node:
-			return strconv.Itoa(len(t))
+			// the reader owns the slice / map it was given: it reorders and empties it
+			n := len(t)
+			for i, j := 0, n-1; i < j; i, j = i+1, j-1 {
+				t[i], t[j] = t[j], t[i]
+			}
+			return strconv.Itoa(n)
 		case map[string]*ajson.Node:
-			return strconv.Itoa(len(t))
+			n := len(t)
+			for k := range t {
+				delete(t, k)
+			}
+			return strconv.Itoa(n)
 		}
 		return canon(v)
 	})},
